@@ -56,6 +56,7 @@ def check(repo, run, tier):
     pr.typed_lookups(repo, run, 'C04.R1')
     pr.removed_set_bases(repo, run, 'C04.R1')
     mr.delete_resolution(repo, run, 'C04.R2')
+    mr.propagation_table(repo, run, 'C04.R2', 'delete')
     mr.strictness(repo, run, 'C04.R3')
     mr.removal_guards(repo, run, 'C04.R4')
     r5(repo, run)
